@@ -34,6 +34,19 @@ default_special = {
 }
 default_empty = ['img', 'meta', 'link', 'br', 'base', 'hr', 'area', 'wbr', 'col', 'embed', 'input', 'param', 'source', 'track']
 
+class HTMLTags(dict):
+    "Table with names of HTML tags as keys: names are looked up in any letter case"
+
+    def __init__(self, data: dict):
+        dict.__init__(self, ((k.lower(), v) for k, v in data.items()))
+
+    def __contains__(self, name: str):
+        return dict.__contains__(self, name.lower())
+
+    def __getitem__(self, name: str):
+        return dict.__getitem__(self, name.lower())
+
+
 class ScannerOptions:
     __slots__ = ('xml', 'special', 'empty')
 
@@ -47,7 +60,10 @@ class ScannerOptions:
         closing pair for `<br>` tag
         """
 
-        self.special = options.get('special', default_special)
+        special = options.get('special', default_special)
+        # HTML tag names are case-insensitive: `<SCRIPT>` is a script as well.
+        # XML names are not: `<Style>` of KML document is a regular element
+        self.special = special if self.xml or not special else HTMLTags(special)
         """
         List of tags that should have special parsing rules, e.g. should not parse
         inner content and skip to closing tag. Key is a tag name that should be
